@@ -194,9 +194,12 @@ pub fn observe(ctx: &Ctx, st: &mut Stats, job: &Job, idx: usize) {
         cands = c;
     }
     // all candidates un-mask to the same placed matrix
+    // (format modules are left out: a candidate may or may not carry its own format information)
     let placed = symbol::unmasked(&cands[0], v, 0);
+    let map_all = region_map(v);
     for m in 1..8 {
-        if symbol::unmasked(&cands[m], v, m) != placed {
+        let um = symbol::unmasked(&cands[m], v, m);
+        if (0..um.dark.len()).any(|i| map_all.region[i] != Region::Format && um.dark[i] != placed.dark[i]) {
             flag(st, ID, ("candidates-differ-in-placement".into(), format!("candidate for mask {m} does not un-mask (ISO condition {m} over the encoding region) to the same placed codewords as candidate 0")), job, false);
             return;
         }
